@@ -550,6 +550,77 @@ def bounded_progress(run, rng, case_id: int) -> None:
     run.case(['bounded', shape, limit, n_top], True, sample={'shape': shape, 'recur_limit': limit, 'calls': calls[0], 'budget': budget, 'outcome': outcome} if case_id < 2 else None, tag='bounded-progress')
 
 
+def nested_names(run, rng, case_id: int) -> None:
+    """collapse_all over a non-recursive graph of (partly unnamed) instances at several nesting depths.  Every copy of the
+    leaf template must stay a separate copy: its relay and its target carry one and the same instance name, no two copies
+    share a name, and each relay's output still addresses exactly the target of its own copy (placement is composed)."""
+    from srctools.vmf import VMF, Output
+    from srctools import instancing
+    from srctools.filesys import VirtualFileSystem
+    style = rng.choice((0, 1))
+    leaf = VMF()
+    r = leaf.create_ent('logic_relay', targetname='relay', origin='0 0 0')
+    r.add_out(Output('OnTrigger', 'target', 'Kill'))
+    leaf.create_ent('info_target', targetname='target', origin='8 0 0')
+    files = {'leaf.vmf': leaf.export(inc_version=False)}
+    depth = rng.randint(1, 3)
+    prev = 'leaf.vmf'
+    expected_copies = 1
+    for d in range(depth):
+        w = VMF()
+        k = rng.choice((1, 1, 2))
+        for j in range(k):
+            kw = dict(file=prev, origin=f'{64 * (j + 1)} 0 0', angles='0 0 0', fixup_style=str(style))
+            if rng.random() < 0.35:
+                kw['targetname'] = f'named{d}_{j}'
+            w.create_ent('func_instance', **kw)
+        expected_copies *= k
+        if rng.random() < 0.5:  # the leaf also sits directly in this level
+            w.create_ent('func_instance', file='leaf.vmf', origin='0 512 0', angles='0 0 0', fixup_style=str(style))
+            expected_copies += 1
+        prev = f'w{d}.vmf'
+        files[prev] = w.export(inc_version=False)
+    top = VMF()
+    n_top = rng.choice((1, 2, 3))
+    for j in range(n_top):
+        kw = dict(file=prev, origin=f'0 0 {128 * j}', angles='0 0 0', fixup_style=str(style))
+        if rng.random() < 0.3:
+            kw['targetname'] = f'top{j}'
+        top.create_ent('func_instance', **kw)
+    expected_copies *= n_top
+    case = {'id': case_id, 'nested_names': True, 'depth': depth, 'style': style}
+    try:
+        instancing.collapse_all(top, VirtualFileSystem(files), recur_limit=depth + 3)
+    except Exception as exc:
+        run.violation(f'collapse_all raised {type(exc).__name__}: {exc}', witness=traceback.format_exc()[-800:], case=case,
+                      engine='nested-names', key='collapse-all-raises')
+        return
+    relays = list(top.by_class['logic_relay'])
+    targets = list(top.by_class['info_target'])
+    run.count('nested_name_maps')
+    run.count('nested_copies_checked', len(relays))
+    if len(relays) != expected_copies or len(targets) != expected_copies:
+        run.violation(f'{expected_copies} copies of the leaf template expected, {len(relays)} relays and {len(targets)} targets found',
+                      case=case, engine='nested-names', key='nested-copy-count')
+        return
+    rnames = [e['targetname'] for e in relays]
+    tnames = [e['targetname'] for e in targets]
+    if len(set(rnames)) != len(rnames) or len(set(tnames)) != len(tnames):
+        dup = sorted(n for n in set(rnames + tnames) if (rnames + tnames).count(n) > 1)[:3]
+        run.violation(f'separate copies of one instance file ended with the same entity names {dup} (style {style})', witness={'relays': sorted(rnames)[:8]},
+                      case=case, engine='nested-names', key='copies-share-names')
+        return
+    for e in relays:
+        tgt = e.outputs[0].target
+        hits = [t for t in targets if t['targetname'] == tgt]
+        same_copy = [t for t in hits if all(abs(a - b) < 1e-6 for a, b in zip(t.get_origin() - e.get_origin(), (8.0, 0.0, 0.0)))]
+        if len(hits) != 1 or len(same_copy) != 1:
+            run.violation(f'the output of {e["targetname"]!r} addresses {len(hits)} targets ({len(same_copy)} in its own copy)', case=case,
+                          engine='nested-names', key='output-leaves-its-copy')
+            return
+    run.case(['nested-names', case_id, depth, n_top, style], depth > 1, tag='nested-names')
+
+
 def one_case(run, seed: int, i: int, engine: str = 'collapse') -> None:
     rng = sub_rng(seed, engine, i)
     c = Collapser(run, rng, i, engine)
@@ -577,9 +648,12 @@ def main(run, shard=(0, 1)) -> None:
     for i in range(10000 if thorough else 120):
         if mine(i, shard):
             bounded_progress(run, sub_rng(run.seed, 'bounded', i), i)
+    for i in range(10000 if thorough else 150):
+        if mine(i, shard):
+            nested_names(run, sub_rng(run.seed, 'nested', i), i)
     probe.report(run)
     probe.check_reached(run)
-    run.require('collapses', 'nested_fixup_values_checked', 'collapses_keeping_visgroups', 'collapsed_copies_mutated', 'typed_positions_checked', 'typed_directions_checked', 'typed_axes_checked', 'typed_sidelists_checked', 'typed_nodeids_checked', 'typed_name_or_class_checked', 'typed_pitch_checked', 'plane_points_checked', 'texture_projections_checked', 'origins_checked', 'orientations_checked',
+    run.require('collapses', 'nested_name_maps', 'nested_copies_checked', 'nested_fixup_values_checked', 'collapses_keeping_visgroups', 'collapsed_copies_mutated', 'typed_positions_checked', 'typed_directions_checked', 'typed_axes_checked', 'typed_sidelists_checked', 'typed_nodeids_checked', 'typed_name_or_class_checked', 'typed_pitch_checked', 'plane_points_checked', 'texture_projections_checked', 'origins_checked', 'orientations_checked',
                 'names_checked', 'substitutions_checked', 'template_snapshots_compared', 'collapse_all_runs', 'displacements_checked')
 
 
@@ -587,6 +661,8 @@ def replay(run, data) -> None:
     case = data['case']
     if case.get('bounded'):
         bounded_progress(run, sub_rng(run.seed, 'bounded', int(case['id'])), int(case['id']))
+    elif case.get('nested_names'):
+        nested_names(run, sub_rng(run.seed, 'nested', int(case['id'])), int(case['id']))
     else:
         one_case(run, run.seed, int(case['id']))
     run.case('pad', True)
